@@ -179,9 +179,18 @@ def ob_skip_escape():
 
 
 # ------------------------------------------------------------------ index arithmetic (exhaustive configuration space)
+# float values of an unpacked parameter: ordinary, tiny (noise powers), adjacent binary64 numbers, huge with a relative gap of
+# 1e-12 - a lookup matches a value exactly, never "approximately"
+SNR_FAMILIES = [[0.0, 5.0, 10.5],
+                [1e-9, 2e-9, 4e-9],
+                [1.0, float(np.nextafter(1.0, 2.0)), float(np.nextafter(np.nextafter(1.0, 2.0), 2.0))],
+                [1e20, 1e20 * (1 + 1e-12), 1e20 * (1 + 3e-12)],
+                [-1e-12, 0.0, 1e-12]]
+
+
 @obligation("lookup/pack_indexes_exhaustive", kind="exhaustive", timeout=900,
-            desc="every grid with 0..3 unpacked parameters of lengths 1..3 (+1 packed list parameter) x every subset of fixed values x every "
-                 "value choice: get_pack_indexes == ascending indexes of exactly the matching combinations; get_result_values_list returns "
+            desc="every grid with 0..3 unpacked parameters of lengths 1..3 (+1 packed list parameter; float values ordinary / tiny / adjacent "
+                 "binary64 / huge, as arrays and lists) x every subset of fixed values x every value choice: get_pack_indexes == ascending indexes of exactly the matching combinations; get_result_values_list returns "
                  "precisely those results; get_unpacked_params_list is row-major over the sorted names with unpack_index == position")
 def ob_lookup():
     from pyphysim.simulations.parameters import SimulationParameters
@@ -191,12 +200,15 @@ def ob_lookup():
         names = ["Nr", "SNR", "scheme"]
         for k in range(0, 4):
             for lens in itertools.product((1, 2, 3), repeat=k):
-                yield {"names": names[:k], "lens": list(lens)}
+                for fam in (range(len(SNR_FAMILIES)) if k >= 2 else (0,)):
+                    for cont in (("array", "list") if k >= 2 else ("array",)):
+                        yield {"names": names[:k], "lens": list(lens), "snr_family": fam, "container": cont}
 
     def check(case):
         names, lens = case["names"], case["lens"]
-        vals = {"Nr": [1, 2, 4], "SNR": [0.0, 5.0, 10.5], "scheme": ["a", "b", "c"]}
-        d = {n: np.array(vals[n][:l]) if n != "scheme" else vals[n][:l] for n, l in zip(names, lens)}
+        vals = {"Nr": [1, 2, 4], "SNR": SNR_FAMILIES[case["snr_family"]], "scheme": ["a", "b", "c"]}
+        d = {n: np.array(vals[n][:l]) if (n != "scheme" and case["container"] == "array") else list(vals[n][:l])
+             for n, l in zip(names, lens)}
         d["packed"] = [7, 8]
         d["x"] = 3
         p = SimulationParameters.create(d)
@@ -238,6 +250,82 @@ def ob_lookup():
                         return {"fixed": {k: str(v) for k, v in fd.items()}, "values": gv, "expected": [100 + i for i in want]}
         return None
     return exhaustive(cases(), check)
+
+
+@obligation("lookup/pack_indexes_symbolic_values", params=[{"lens": l} for l in ((3,), (2, 2), (3, 2))],
+            desc="get_pack_indexes symbolically executed (incl. its eval'd index expression) on grids whose unpacked values are ARBITRARY "
+                 "pairwise distinct reals: for every subset of fixed parameters and every choice, a query equal to the chosen value "
+                 "returns exactly the ascending indexes of the matching combinations - for all values, however close together")
+def ob_lookup_symbolic(lens):
+    from pyphysim.simulations.parameters import SimulationParameters
+    names = ["a", "b"][:len(lens)]
+    subsets = [(fixed, choice) for m in range(0, len(names) + 1) for fixed in itertools.combinations(names, m)
+               for choice in itertools.product(*[range(lens[names.index(n)]) for n in fixed])]
+
+    def one(fixed, choice):
+        def body(c, it):
+            vals = {}
+            for n, l in zip(names, lens):
+                vs = [c.var("%s%d" % (n, i), "real") for i in range(l)]
+                for i in range(l):
+                    for j in range(i + 1, l):
+                        c.assume(vs[i] != vs[j])
+                vals[n] = vs
+            c.inputs.update({n: list(v) for n, v in vals.items()})
+            d = {}
+            for n in names:
+                arr = np.empty(len(vals[n]), dtype=object)
+                for i, v in enumerate(vals[n]):
+                    arr[i] = v
+                d[n] = arr
+            d["x"] = 3
+            p = SimulationParameters.create(d)
+            for n in names:
+                p.set_unpack_parameter(n)
+            fd = {}
+            for n, k in zip(fixed, choice):
+                q = c.var("query_%s" % n, "real")
+                c.assume(q == vals[n][k])
+                fd[n] = q
+            c.inputs.update({"fixed": dict(fd)})
+            got = it.call(it.getattr(p, "get_pack_indexes"), [fd])
+            grid = list(itertools.product(*[range(l) for l in lens]))      # row-major over the sorted names (a < b)
+            want = [i for i, digits in enumerate(grid) if all(digits[names.index(n)] == k for n, k in zip(fixed, choice))]
+            try:
+                got_l = [int(x) for x in np.asarray(got).ravel()]
+            except Exception:
+                got_l = repr(got)
+            return [Goal("indexes %s == matching combinations %s (fixed %s -> value #%s)" % (got_l, want, list(fixed), list(choice)),
+                         got_l == want)]
+        return verify(body, replay=_replay_lookup(names, lens, fixed, choice))
+    return merge([one(f, ch) for f, ch in subsets])
+
+
+def _replay_lookup(names, lens, fixed, choice):
+    def rp(mv):
+        from pyphysim.simulations.parameters import SimulationParameters
+        try:
+            d = {n: np.array([float(x) for x in mv[n]]) for n in names}
+            for n in names:
+                if len(set(d[n].tolist())) != len(d[n]):
+                    return {"confirmed": False, "note": "model values coincide in binary64", "values": {k: v.tolist() for k, v in d.items()}}
+            d["x"] = 3
+            p = SimulationParameters.create(d)
+            for n in names:
+                p.set_unpack_parameter(n)
+            fd = {n: float(d[n][k]) for n, k in zip(fixed, choice)}
+            plist = p.get_unpacked_params_list()
+            want = [i for i, q in enumerate(plist) if all(q[n] == v for n, v in fd.items())]
+            try:
+                got = [int(x) for x in p.get_pack_indexes(fd)]
+            except Exception as e:
+                return {"confirmed": True, "values": {n: d[n].tolist() for n in names}, "fixed": fd, "observed": "raised %r" % e,
+                        "expected": want}
+            return {"confirmed": got != want, "values": {n: d[n].tolist() for n in names}, "fixed": fd, "get_pack_indexes": got,
+                    "matching combinations": want}
+        except Exception as e:
+            return {"confirmed": False, "error": repr(e)}
+    return rp
 
 
 # ------------------------------------------------------------------ bounded native
@@ -304,7 +392,7 @@ def ob_native():
                 exp = None
                 for k, v in enumerate(succ):
                     acc += v
-                    if (k + 1 >= rep_max) or not (acc < case["stop_at"] or case["stop_at"] == 0):
+                    if ((not (k + 1 < rep_max))) or not ((not (acc >= case["stop_at"])) or case["stop_at"] == 0):
                         exp = k + 1
                         break
                 if exp != len(succ):
